@@ -308,8 +308,10 @@ impl<'r> B<'r> {
             Calls::ZeroIndy => vec![indy.clone()],
             Calls::ZeroArray => vec![arr.clone()],
             Calls::Two => {
-                let c2 = match self.r.below(3) {
+                let c2 = match self.r.below(4) {
                     0 => CallD { op: 182, owner: OBJECT.into(), name: "hashCode".into(), desc: "()I".into(), itf: false },
+                    // a constructor call is an invoked method like any other (`new Helper(); this.specialized(x)` invokes two distinct methods)
+                    3 => CallD { op: 183, owner: if self.r.bool() { OBJECT.into() } else { hb.clone() }, name: "<init>".into(), desc: "()V".into(), itf: false },
                     1 => { let d2 = format!("(I{}", &ddesc[1..]); let n2 = self.add_method(&dcl, MethodD { name: dn.clone(), desc: d2.clone(), access: PUBLIC, synthetic_attr: false, has_code: true, calls: vec![], reads_field: false }); CallD { name: n2, desc: d2, ..c.clone() } }
                     _ => { let n2 = self.add_method(&dcl, MethodD { name: format!("other{n}"), desc: ddesc.clone(), access: PUBLIC, synthetic_attr: false, has_code: true, calls: vec![], reads_field: false }); CallD { name: n2, ..c.clone() } }
                 };
